@@ -65,6 +65,20 @@ def multi_init(dot, out):
     return len(inits)
 
 
+def validate(ctx, module, cfg, trace, what, **kw):
+    """ctx.validate + removal of the *_TTrace_* files TLC drops into the spec directory on a violation."""
+    import glob
+    from vlib import ROOT
+    try:
+        return ctx.validate(SPEC, module, cfg, trace, what, **kw)
+    finally:
+        for f in glob.glob(os.path.join(ROOT, SPEC, '*_TTrace_*')):
+            try:
+                os.remove(f)
+            except OSError:
+                pass
+
+
 def cat(files, out):
     with open(out, 'w') as g:
         for f in files:
@@ -154,7 +168,7 @@ def run(ctx):
     # E4 ---------------------------------------------------------------------------------------
     traces = [tr_cover]
     execs = n_cover
-    n = 4000 if thorough else 500
+    n = 4000 if thorough else 300
     for pct in (0, 3):
         tr = os.path.join(ctx.work, 'rand_p%d.ndjson' % pct)
         tot, _ = ctx.driver(exe, ['--out', tr, '--randprog', 'c21', '--random', n, '--seed', ctx.seed + pct,
@@ -179,8 +193,8 @@ def run(ctx):
 
     # E3 ---------------------------------------------------------------------------------------
     allt = cat(traces, os.path.join(ctx.work, 'all.ndjson'))
-    ctx.validate(SPEC, 'EventTrace.tla', 'EventTrace.cfg', allt, WHAT, executions=execs,
-                 label='cover replay + random + stuck control')
+    validate(ctx, 'EventTrace.tla', 'EventTrace.cfg', allt, WHAT, executions=execs,
+             label='cover replay + random + stuck control')
     ctx.sample_trace(tr_cover, 14)
     ctx.sample_trace(tr, 8)
     ctx.assumptions += [
